@@ -242,7 +242,20 @@ def r3(ctx):
     # NlaIII / CHIC match hashes
     for relpath, cls in ((FRAG_NLA, 'NlaIIIFragment'), (FRAG_CHIC, 'CHICFragment')):
         init = ctx.fn(relpath, f'{cls}.__init__')
-        hashes = [s.value for s in walk_no_nested(init) if isinstance(s, ast.Assign) and src(s.targets[0]) == 'self.match_hash' and isinstance(s.value, ast.Tuple)]
+        def tuple_elts(e):
+            """elements of a tuple expression, also when written as a sum of tuples `(a,) + (b, c)`"""
+            if isinstance(e, ast.Tuple):
+                return list(e.elts)
+            if isinstance(e, ast.BinOp) and isinstance(e.op, ast.Add):
+                l_, r_ = tuple_elts(e.left), tuple_elts(e.right)
+                return l_ + r_ if l_ is not None and r_ is not None else None
+            return None
+        hashes = []
+        for s_ in walk_no_nested(init):
+            if isinstance(s_, ast.Assign) and src(s_.targets[0]) == 'self.match_hash':
+                te = tuple_elts(s_.value)
+                if te is not None:
+                    hashes.append(ast.copy_location(ast.Tuple(elts=te, ctx=ast.Load()), s_.value))
         eqf = ctx.fn(relpath, f'{cls}.__eq__')
         eqsrc = src(eqf)
         for h in hashes:
@@ -252,7 +265,12 @@ def r3(ctx):
             ok = all(has.values())
             ctx.emit('C06-R3', ok, relpath, h, f'{cls} match hash {comps}: ' + ('cell, contig, strand and site are compared' if ok else f'missing {[k for k, v in has.items() if not v]}'),
                      key=f'{cls}:match-hash:{len(comps)}', nontrivial=False, what=f'{cls}: match hash lacks a component')
-        ok = 'self.match_hash != other.match_hash' in eqsrc and 'self.umi_eq(other)' in eqsrc
+        # decision table: different match hash -> False; same hash -> the UMI comparison decides (possibly after further tests)
+        from ..util import explore, mk_atoms
+        r_diff = explore(eqf.body, mk_atoms({'self.match_hash != other.match_hash': True}))
+        r_same = explore(eqf.body, mk_atoms({'self.match_hash != other.match_hash': False}))
+        ok = bool(r_diff) and all(r['kind'] == 'return' and src(r['stmt'].value) == 'False' for r in r_diff) and \
+            bool(r_same) and any(r['kind'] == 'return' and 'self.umi_eq(other)' in src(r['stmt'].value) for r in r_same)
         ctx.emit('C06-R3', ok, relpath, eqf, f'{cls}.__eq__ compares the match hash and the UMIs', key=f'{cls}:eq', nontrivial=False)
     ch = ctx.fn(FRAG_CHIC, 'CHICFragment.__eq__')
     # decision procedure of CHICFragment.__eq__ for equal match hashes and known sites, over all (site, site, radius >= 0): not equal iff
